@@ -34,7 +34,7 @@ func (in *Interp) foreign(fn *types.Func, recv Value, x *ast.CallExpr) []Value {
 		}
 		n := v.W / 8
 		if dst.Len() < n {
-			in.fail(x, "PutUint%d into %d bytes on a live path", v.W, dst.Len())
+			in.crash(x, "PutUint%d into %d bytes", v.W, dst.Len())
 		}
 		big := strings.Contains(name, "bigEndian")
 		for i := 0; i < n; i++ {
@@ -57,7 +57,7 @@ func (in *Interp) foreign(fn *types.Func, recv Value, x *ast.CallExpr) []Value {
 		w, _, _ := widthOf(sig.Results().At(0).Type())
 		n := w / 8
 		if src.Len() < n {
-			in.fail(x, "Uint%d of %d bytes on a live path", w, src.Len())
+			in.crash(x, "Uint%d of %d bytes", w, src.Len())
 		}
 		big := strings.Contains(name, "bigEndian")
 		b := make([]Node, 0, w)
@@ -77,6 +77,21 @@ func (in *Interp) foreign(fn *types.Func, recv Value, x *ast.CallExpr) []Value {
 		return []Value{&StrVal{}}
 	case "strings.TrimPrefix", "strings.ToLower", "strings.ToUpper":
 		return []Value{&StrVal{}}
+	case "crypto/subtle.ConstantTimeCompare":
+		args := in.args(x, sig)
+		a, ok1 := args[0].(*Slice)
+		b, ok2 := args[1].(*Slice)
+		if !ok1 || !ok2 {
+			in.fail(x, "ConstantTimeCompare on %T, %T", args[0], args[1])
+		}
+		if a.Len() != b.Len() {
+			return []Value{in.D.Const(0, 64, true)}
+		}
+		eq := True
+		for i := 0; i < a.Len(); i++ {
+			eq = in.D.M.And(eq, in.equal(a.At(i).V, b.At(i).V, x))
+		}
+		return []Value{in.D.ITE(eq, in.D.Const(1, 64, true), in.D.Const(0, 64, true))}
 	case "bytes.Equal":
 		args := in.args(x, sig)
 		toS := func(v Value) *Slice {
@@ -280,7 +295,7 @@ func (in *Interp) opaqueMethod(o *Opaque, method string, x *ast.CallExpr) []Valu
 			in.fail(x, "cipher block arguments")
 		}
 		if dst.Len() < 16 || src.Len() < 16 {
-			in.fail(x, "cipher.Block.%s with dst %d / src %d bytes on a live path (needs 16)", method, dst.Len(), src.Len())
+			in.crash(x, "cipher.Block.%s with dst %d / src %d bytes (needs 16)", method, dst.Len(), src.Len())
 		}
 		blk := make([]Value, 16)
 		for i := range blk {
